@@ -4,6 +4,7 @@
 #include "dec_common.h"
 #include "ref_lh.h"
 #include "ref_pm.h"
+#include "ref_lh1.h"
 
 /* Large decoder objects (-lhx-: 2 MiB) are served from one reusable slot so that the kernel is not asked for
  * fresh zero pages a million times; the slot is fenced with manually poisoned red zones, so an access
@@ -273,6 +274,42 @@ int main(int argc, char **argv)
 			sl = with_tail(&w, v, nb, tail);
 			fuzz_all_schedules("-lh1-", SB, sl, nb <= 6);
 			vf_nontrivial(vf_hash(SB, sl, 11));
+		}
+	} else if (!strcmp(VF.space, "lh1long")) {
+		/* deep adaptive-tree states: valid prefixes that use 312..314 different codes once each (three orders), two rounds of
+		 * them, and a staircase of counts, each followed by EVERY byte x 4 second bytes of arbitrary tail */
+		static const uint8_t second[4] = { 0x00, 0xFF, 0x55, 0xAA };
+		static ref_lh1_tree T;
+		int g, k, round, b0, b1;
+		for (g = 0; g < 4; ++g)
+		for (round = 0; round < 2; ++round)
+		for (k = 312; k <= 314; ++k)
+		for (b0 = 0; b0 < 256; ++b0) {
+			ref_bw w;
+			size_t sl;
+			long i, n = (long) round * 314 + k;
+			if (g == 3 && (round || k != 312)) continue;
+			if (!vf_case("lh1 prefix order %d, %ld symbols, then byte %02x and 4 second bytes", g, n, b0)) continue;
+			ref_bw_init(&w, SB, sizeof SB);
+			ref_lh1_start(&T);
+			if (g < 3) {
+				for (i = 0; i < n; ++i) {
+					int sym = g == 0 ? (int) (i % 314) : g == 1 ? (int) (313 - i % 314) : (int) ((i * 37) % 314);
+					ref_lh1_put_symbol(&T, &w, sym);
+					if (sym >= 256) ref_lh1_put_position(&w, (unsigned) (i * 7 + 3) % 4096);
+				}
+			} else {
+				int s2, r;
+				for (s2 = 0; s2 < 120; ++s2) for (r = 0; r <= s2; ++r) ref_lh1_put_symbol(&T, &w, s2);
+			}
+			sl = ref_bw_bytes(&w);
+			/* the tail starts on the next byte boundary: the padding bits are part of the arbitrary input */
+			for (b1 = 0; b1 < 4; ++b1) {
+				SB[sl] = (uint8_t) b0; SB[sl + 1] = second[b1]; SB[sl + 2] = second[b1];
+				(void) fuzz_run("-lh1-", SB, sl + 3, 1u << 20, 2, 0);
+				(void) fuzz_run("-lh1-", SB, sl + 3, 1u << 20, 3, b1 == 0 ? 1 : 0);
+			}
+			vf_nontrivial(vf_mix(vf_hash(SB, sl, 12), b0));
 		}
 	} else if (!strcmp(VF.space, "subst")) {
 		/* every single-byte substitution (all 255 values) and every truncation of the valid streams listed in
